@@ -321,6 +321,17 @@ func (u *g2lUnit) structDecl(p *g2lPkg, name string, f *g2lFn) string {
 	zeros := []string{}
 	for i := 0; i < st.NumFields(); i++ {
 		fl := st.Field(i)
+		if keep, ok := u.structFields[name]; ok {
+			found := false
+			for _, k := range keep {
+				if k == fl.Name() {
+					found = true
+				}
+			}
+			if !found {
+				continue
+			}
+		}
 		fmt.Fprintf(b, "  %s : %s\n", leanIdent(fl.Name()), f.leanType(fl.Type(), f.fd))
 		zeros = append(zeros, fmt.Sprintf("%s := %s", leanIdent(fl.Name()), f.zero(fl.Type(), f.fd)))
 	}
